@@ -998,7 +998,7 @@ impl Property for C10 {
         }
     }
     fn rule(&self) -> &'static str {
-        "asynchronous runs under the simulator's executor: each seeded world is run under m schedules (m=8 quick, 16 thorough) drawn from all policies (random, FIFO, LIFO, virtual-time latencies, starvation of a kind or of the oldest request, batching, spurious wakes) and yield masks; oracle per schedule: terminates (no deadlock = root future pending with nothing in flight; no budget), verdict = independent reference (= synchronous verdict), Ok(S) valid, at most one get_candidates per name and one solver-originated get_dependencies per solvable; non-trivial = at least 2 quiescent points and >= 3 requests completed; distinct = (world, completion trace) hash"
+        "asynchronous runs under the simulator's executor: each seeded world is run under m schedules (m=8 quick, 16 thorough) drawn from all policies (random, FIFO, LIFO, virtual-time latencies, starvation of a kind or of the oldest request, batching, spurious wakes) and yield masks; one seed in five is a two-solve history on one solver whose first solve is cancelled at a seeded poll (requests dropped in flight); oracle per schedule and per solve: terminates (no deadlock = root future pending with nothing in flight; no budget), verdict = independent reference (= synchronous verdict), Ok(S) valid, at most one get_candidates per name and one solver-originated get_dependencies per solvable over the solver's lifetime (a request dropped in flight may be re-issued); non-trivial = at least 2 quiescent points and >= 3 requests completed; distinct = (world, completion trace) hash"
     }
     fn gen(&self, seed: u64, tier: Tier) -> Vec<Scenario> {
         let base = match seed % 3 {
@@ -1010,10 +1010,12 @@ impl Property for C10 {
             params.max_soft = 2;
         }
         let mut wr = Rng::stream(seed, "world");
-        let (w, ps) = gen_world(&mut wr, &params, 1);
+        let history = seed % 5 == 0;
+        let (w, ps) = gen_world(&mut wr, &params, if history { 2 } else { 1 });
         let m = if tier == Tier::Quick { 8 } else { 16 };
         let mut out = Vec::new();
         let mut cr = Rng::stream(seed, "config");
+        let mut fr = Rng::stream(seed, "faults");
         let salt = Rng::stream(seed, "hash_salt").next_u64();
         let reentrant = seed % 7 == 0;
         for _ in 0..m {
@@ -1021,6 +1023,17 @@ impl Property for C10 {
             gen_config(&mut cr, &mut sc, Some(true));
             sc.hash_salt = salt;
             sc.reentrant_sort = reentrant;
+            if history {
+                sc.spurious_p = 0;
+                // first solve cancelled at a seeded poll, second solve (other or same problem) must still work
+                let polls = execute(&sc).stats.cancel_polls.max(1);
+                sc.solves[0].cancel = Some(CancelPlan {
+                    at_poll: fr.below(polls as usize) as u64,
+                    mode: CancelMode::Persistent,
+                });
+                let second = if fr.chance(1, 2) { ps[0].clone() } else { ps[1].clone() };
+                sc.solves.push(SolveSpec { problem: second, cancel: None });
+            }
             out.push(sc);
         }
         out
@@ -1030,44 +1043,49 @@ impl Property for C10 {
         let mut v = base_verdict(sc, &rec);
         v.evaluated = true;
         v.nontrivial = rec.stats.quiescent_points >= 2 && rec.stats.completions >= 3;
-        let p = &sc.solves[0].problem;
-        match &rec.outcomes[0] {
-            Outcome::Deadlock => v.violate("deadlock", "solve waits although no provider request is in flight"),
-            Outcome::StepBudget => v.violate("hang:steps", "scheduler step budget exceeded"),
-            Outcome::Cancelled(Some(Token::Budget)) => v.violate("hang:polls", "poll budget exceeded"),
-            Outcome::Panic(_) => {
-                // is the panic schedule-dependent? compare with the synchronous run
-                let mut sync = sc.clone();
-                sync.runtime = RuntimeKind::NowOrNever;
-                let r2 = execute(&sync);
-                if matches!(r2.outcomes[0], Outcome::Panic(_)) {
-                    v.aborted_other = true;
-                    v.evaluated = false;
-                } else if let Some((c, d)) = crash_class(&rec.outcomes[0]) {
-                    v.violate(format!("async-only-{c}"), d);
+        for (i, o) in rec.outcomes.iter().enumerate() {
+            let p = &sc.solves[i].problem;
+            let single = |keep: usize| {
+                let mut s = sc.clone();
+                s.solves = vec![sc.solves[keep].clone()];
+                s.solves[0].cancel = None;
+                s.runtime = RuntimeKind::NowOrNever;
+                s
+            };
+            match o {
+                Outcome::Deadlock => v.violate("deadlock", format!("solve #{i} waits although no provider request is in flight")),
+                Outcome::StepBudget => v.violate("hang:steps", format!("solve #{i}: scheduler step budget exceeded")),
+                Outcome::Cancelled(Some(Token::Budget)) => v.violate("hang:polls", format!("solve #{i}: poll budget exceeded")),
+                Outcome::Panic(_) => {
+                    // is the panic schedule-dependent? compare with the synchronous fresh run
+                    let r2 = execute(&single(i));
+                    if matches!(r2.outcomes[0], Outcome::Panic(_)) {
+                        v.aborted_other = true;
+                        v.evaluated = false;
+                    } else if let Some((c, d)) = crash_class(o) {
+                        v.violate(format!("async-only-{c}"), format!("solve #{i}: {d}"));
+                    }
                 }
-            }
-            o => {
-                if let Some(got) = o.verdict() {
-                    match ref_verdict(&sc.world, p) {
-                        None => v.inconclusive = true,
-                        Some(want) => {
-                            if got != want {
-                                v.violate("verdict", format!("async verdict {} but reference says {}", got, want));
+                o => {
+                    if let Some(got) = o.verdict() {
+                        match ref_verdict(&sc.world, p) {
+                            None => v.inconclusive = true,
+                            Some(want) => {
+                                if got != want {
+                                    v.violate("verdict", format!("solve #{i}: async verdict {} but reference says {}", got, want));
+                                }
                             }
                         }
-                    }
-                    if let Outcome::Ok(s) = o {
-                        if let Some((cat, text)) = validity_errors(&sc.world, p, s).first() {
-                            // C01 defects that also occur synchronously are C01's business
-                            let mut sync = sc.clone();
-                            sync.runtime = RuntimeKind::NowOrNever;
-                            let r2 = execute(&sync);
-                            let sync_bad = matches!(&r2.outcomes[0], Outcome::Ok(s2) if !validity_errors(&sc.world, p, s2).is_empty());
-                            if sync_bad {
-                                v.aborted_other = true;
-                            } else {
-                                v.violate(format!("invalid:{cat}"), format!("async run returned {s:?}: {text}"));
+                        if let Outcome::Ok(s) = o {
+                            if let Some((cat, text)) = validity_errors(&sc.world, p, s).first() {
+                                // C01 defects that also occur synchronously are C01's business
+                                let r2 = execute(&single(i));
+                                let sync_bad = matches!(&r2.outcomes[0], Outcome::Ok(s2) if !validity_errors(&sc.world, p, s2).is_empty());
+                                if sync_bad {
+                                    v.aborted_other = true;
+                                } else {
+                                    v.violate(format!("invalid:{cat}"), format!("solve #{i}: async run returned {s:?}: {text}"));
+                                }
                             }
                         }
                     }
